@@ -62,6 +62,15 @@ class DumpPath:
         return [it[0] if it[0] != "bytes" else it for it in self.items]
 
 
+class _Sized:
+    """stand-in for a value of which only the length is known (truth value = non-empty)"""
+    def __init__(self, n):
+        self.n = n
+
+    def __len__(self):
+        return self.n
+
+
 class ValEnv(dict):
     """environment of the safe evaluator for one valuation: module constants are folded on demand, `len(x)` of a value
     that is not a constant is the valuation's length, the dumper's parameter is the valuation's value (if any)"""
@@ -76,8 +85,13 @@ class ValEnv(dict):
             return True, self.ctx.folder.fold(e, self.ctx.module(BRINE))
         except Unfoldable:
             pass
-        if isinstance(e, ast.Name) and e.id == self.objname and "value" in self.val:
-            return True, self.val["value"]
+        if isinstance(e, ast.Name) and e.id == self.objname:
+            if "value" in self.val:
+                return True, self.val["value"]
+            if self.val.get("truth") is not None:
+                return True, bool(self.val["truth"])
+            if self.val.get("len") is not None:
+                return True, _Sized(self.val["len"])     # str/bytes/tuple: empty <=> falsy
         return False, None
 
     def calls(self):
